@@ -12,6 +12,8 @@ import (
 	"encoding/base64"
 	"encoding/json"
 	"fmt"
+	"os"
+	"strings"
 	"sync"
 	"testing"
 	"time"
@@ -43,9 +45,13 @@ type c06EOp struct {
 	Users []c06ECred `json:"users"`
 	Nil   bool       `json:"nil"`   // update delivered as a nil map
 	Creds string     `json:"creds"` // req: user:password
+	How   string     `json:"how,omitempty"`
 }
 
 type c06EIn struct {
+	// Mode "file": the users live in an htpasswd file (FILE mode, fsnotify); an update rewrites the file
+	// in place (how = inplace) or replaces it atomically: temp file + rename over the path (how = rename)
+	Mode    string     `json:"mode,omitempty"`
 	InitErr bool       `json:"initErr"` // the first GetPrefix fails
 	Prefix  string     `json:"prefix"`
 	Initial []c06ECred `json:"initial"`
@@ -96,6 +102,131 @@ func c06EUsers(users []c06ECred) [][2]string {
 		}
 	}
 	return out
+}
+
+func c06FileContent(users []c06ECred) []byte {
+	var b []byte
+	for _, u := range c06EUsers(users) {
+		h := sha1.Sum([]byte(u[1]))
+		b = append(b, []byte(u[0]+":{SHA}"+base64.StdEncoding.EncodeToString(h[:])+"\n")...)
+	}
+	return b
+}
+
+// c06RunFile: FILE mode. After every rewrite the harness waits (bounded) until the marker user of that
+// version is known to the cache; if that never happens the history goes on and the requests show it.
+func c06RunFile(in c06EIn, dir string, id int) (obs c06EObs) {
+	path := fmt.Sprintf("%s/users-%d", dir, id)
+	if err := os.WriteFile(path, c06FileContent(in.Initial), 0o600); err != nil {
+		panic(err)
+	}
+	newGen := func() *Validator {
+		spec, err := filters.NewSpec(nil, "", map[string]interface{}{"kind": Kind, "name": "c06file",
+			"basicAuth": map[string]interface{}{"mode": "FILE", "userFile": path}})
+		if err != nil {
+			panic("verif: harness defect: " + err.Error())
+		}
+		return &Validator{spec: spec.(*Spec)}
+	}
+	v := newGen()
+	v.Init()
+	defer func() { v.Close() }()
+	current := c06EUsers(in.Initial)
+	seen := map[string]bool{}
+	for _, op := range in.Ops {
+		switch op.Op {
+		case "update":
+			content := c06FileContent(op.Users)
+			if op.How == "rename" {
+				if err := os.WriteFile(path+".tmp", content, 0o600); err != nil {
+					panic(err)
+				}
+				if err := os.Rename(path+".tmp", path); err != nil {
+					panic(err)
+				}
+			} else if err := os.WriteFile(path, content, 0o600); err != nil {
+				panic(err)
+			}
+			current = c06EUsers(op.Users)
+			marker := ""
+			for _, u := range op.Users {
+				if strings.HasPrefix(u.Key, "marker-") {
+					marker = u.Key
+				}
+			}
+			for t0 := time.Now(); marker != "" && time.Since(t0) < 3*time.Second; time.Sleep(2 * time.Millisecond) {
+				if v.basicAuth.authorizedUsersCache.Match(marker, "m") {
+					break
+				}
+			}
+		case "reload":
+			nv := newGen()
+			nv.Inherit(v)
+			v.Close()
+			v = nv
+		case "req":
+			b64 := base64.StdEncoding.EncodeToString([]byte(op.Creds))
+			req := c06Req{Method: "GET", Path: "/", Host: "example.com", Headers: [][2]string{{"Authorization", "Basic " + b64}}}
+			d := c06Deliver(v, c06Wire(&req), 1700000000, "", "")
+			exp, _ := c06RefBasic(current, d.View)
+			obs.Steps = append(obs.Steps, c06EStep{B64: b64, Expect: exp, Result: d.Result})
+			if !seen[b64] {
+				seen[b64] = true
+				obs.B64 = append(obs.B64, [2]string{b64, c06Hex(op.Creds)})
+			}
+		}
+	}
+	return
+}
+
+// c06GenFile: FILE-mode history. The code watches the inode: after an atomic replacement only a reload
+// (new generation) watches the new file, so a generation sees in-place rewrites and at most one replacement.
+func c06GenFile(r *vfRand) c06EIn {
+	in := c06EIn{Mode: "file"}
+	ver := 0
+	set := func() []c06ECred {
+		ver++
+		s := []c06ECred{{Key: fmt.Sprintf("marker-%d", ver), Password: "m"}}
+		for _, n := range c06ENames {
+			if r.Chance(1, 2) {
+				s = append(s, c06ECred{Key: n, Password: r.PickStr(c06EPws...)})
+			}
+		}
+		return s
+	}
+	cur := set()
+	in.Initial = cur
+	known := append([]c06ECred{}, cur...)
+	request := func() {
+		k := known[r.Intn(len(known))]
+		creds := k.user() + ":" + k.Password
+		if r.Chance(1, 5) {
+			creds += "x"
+		}
+		in.Ops = append(in.Ops, c06EOp{Op: "req", Creds: creds})
+	}
+	request()
+	watching := true
+	for i, n := 0, r.Range(2, 5); i < n; i++ {
+		if !watching || r.Chance(1, 4) {
+			in.Ops = append(in.Ops, c06EOp{Op: "reload"})
+			watching = true
+			request()
+			continue
+		}
+		op := c06EOp{Op: "update", Users: set(), How: r.PickStr("rename", "rename", "inplace")}
+		if r.Chance(1, 4) {
+			op.Users = op.Users[:1] // everybody but the marker removed
+		}
+		watching = op.How != "rename"
+		in.Ops = append(in.Ops, op)
+		cur = op.Users
+		known = append(known, cur...)
+		for j, m := 0, r.Range(2, 4); j < m; j++ {
+			request()
+		}
+	}
+	return in
 }
 
 func c06RunEtcd(in c06EIn) (obs c06EObs) {
@@ -355,10 +486,17 @@ func c06GenEtcd(r *vfRand, adv bool) c06EIn {
 func TestVerifC06Etcd(t *testing.T) {
 	out := vfOpen(t)
 	defer out.Close()
+	dir := t.TempDir()
+	fileSeq := 0
 	for _, sc := range vfStored("etcd") {
 		var in c06EIn
 		if err := json.Unmarshal(sc.In, &in); err != nil {
 			t.Fatal(err)
+		}
+		if in.Mode == "file" {
+			fileSeq++
+			out.Emit(vfCase{ID: sc.ID, Src: sc.Src, Grp: "etcd", In: in, Obs: c06RunFile(in, dir, fileSeq)})
+			continue
 		}
 		out.Emit(vfCase{ID: sc.ID, Src: sc.Src, Grp: "etcd", In: in, Obs: c06RunEtcd(in)})
 	}
@@ -373,6 +511,12 @@ func TestVerifC06Etcd(t *testing.T) {
 	}
 	n := vfN(100)
 	for i := 0; i < n; i++ {
+		if i%5 == 4 { // FILE mode histories
+			in := c06GenFile(root.Fork(i))
+			fileSeq++
+			out.Emit(vfCase{ID: fmt.Sprintf("%s-file-%d", src, i), Src: src, Grp: "etcd", In: in, Obs: c06RunFile(in, dir, fileSeq)})
+			continue
+		}
 		in := c06GenEtcd(root.Fork(i), adv)
 		out.Emit(vfCase{ID: fmt.Sprintf("%s-etcd-%d", src, i), Src: src, Grp: "etcd", In: in, Obs: c06RunEtcd(in)})
 	}
